@@ -448,7 +448,7 @@ def crashLine (args0 impl : List String) : String :=
   -- `@old` / `@bin`: age and spelling of the file name; the protocol does not depend on either
   let mods := args0.takeWhile (fun t => t.startsWith "@")
   let args := args0.dropWhile (fun t => t.startsWith "@")
-  if !(mods.all (fun t => t == "@old" || t == "@bin" || t == "@uid")) then "bad-op | |" else
+  if !(mods.all (fun t => t == "@old" || t == "@bin" || t == "@uid" || t == "@link")) then "bad-op | |" else
   let parsed : Option (Crash.Prior × List String) := match args with
     | "missing" :: r => some (.missing, r) | "empty" :: r => some (.empty, r) | "garbage" :: r => some (.garbage, r)
     | "wiped" :: r => some (.wiped, r)
@@ -484,7 +484,7 @@ def crashLine (args0 impl : List String) : String :=
                verdict "C03" p.file.usable c03
       let tags := (if p.file.usable then ["priorUsable"] else ["priorUnusable"]) ++
         (if m.ev != "end" then ["crash"] else ["complete"]) ++ (if m.ev.startsWith "wipe" then ["crashInWipe"] else []) ++
-        (if mods.contains "@old" then ["oldFile"] else []) ++ (if mods.contains "@bin" then ["binaryName"] else [])
+        (if mods.contains "@old" then ["oldFile"] else []) ++ (if mods.contains "@bin" then ["binaryName"] else []) ++ (if mods.contains "@link" then ["symlink"] else [])
       -- `@uid`: the restart happens under another user (uid 65534), which owns the directory but not the file the first
       -- (root) incarnation left: it may read the file but not write it. If a file is there, the restart is REFUSED
       -- (`open(O_RDWR)` / `File::create` fail with EACCES) and nothing may change: same inode, same length, attached
